@@ -1094,13 +1094,16 @@ func GrammarGen(cfg GenConfig) *rapid.Generator[*Grammar] {
 				{K: KStar, Sub: []*Expr{{K: KRef, Name: "Ent"}}}, {K: KOpt, Sub: []*Expr{{K: KRef, Name: "Grp"}}}, Lit(")"), sb}}}
 			ent := &Rule{Name: "Ent", Expr: &Expr{K: KSeq, Sub: []*Expr{{K: KRef, Name: "Itm"}, Lit(",")}}}
 			itm := &Rule{Name: "Itm", Expr: &Expr{K: KChoice, Sub: []*Expr{{K: KRef, Name: "Grp"}, c.consuming()}}}
+			// (a rule in front of them refers to Grp from a sequence of its own: whatever is worked
+			// out per rule is first asked for from there)
+			doc := &Rule{Name: "GrpDoc", Expr: &Expr{K: KSeq, Sub: []*Expr{{K: KRef, Name: "Grp"}, {K: KNot, Sub: []*Expr{{K: KAny}}}}}}
 			if c.chance(50, "mutualorder") {
-				c.g.Rules = append(c.g.Rules, itm, ent, grp)
+				c.g.Rules = append(c.g.Rules, doc, itm, ent, grp)
 			} else {
-				c.g.Rules = append(c.g.Rules, grp, ent, itm)
+				c.g.Rules = append(c.g.Rules, doc, grp, ent, itm)
 			}
-			entries = append(entries, "Grp")
-			c.g.Entries = append(c.g.Entries, "Grp")
+			entries = append(entries, "Grp", "GrpDoc")
+			c.g.Entries = append(c.g.Entries, "Grp", "GrpDoc")
 		}
 		bigKind := map[string]string{}
 		if !cfg.NoScale && c.chance(10, "scale") {
